@@ -18,16 +18,18 @@ class F:
     embedded=True: the group is an embedded struct (its fields are inlined in the model).
     """
 
-    def __init__(self, name, rep, typ, embedded=False):
-        self.name, self.rep, self.typ, self.embedded = name, rep, typ, embedded
+    def __init__(self, name, rep, typ, embedded=False, col=None):
+        # col: the column name given by a `parquet:"..."` tag (None: the field name is the column name)
+        self.name, self.rep, self.typ, self.embedded, self.col = name, rep, typ, embedded, col
 
     def is_leaf(self):
         return isinstance(self.typ, str)
 
     def key(self):
+        nm = self.name + ("=" + self.col if self.col else "")
         if self.is_leaf():
-            return "%s:%s:%s" % (self.name, self.rep, self.typ)
-        return "%s:%s%s:{%s}" % (self.name, self.rep, ":emb" if self.embedded else "", ",".join(f.key() for f in self.typ))
+            return "%s:%s:%s" % (nm, self.rep, self.typ)
+        return "%s:%s%s:{%s}" % (nm, self.rep, ":emb" if self.embedded else "", ",".join(f.key() for f in self.typ))
 
 
 class Shape:
@@ -46,11 +48,11 @@ class Shape:
             out = []
             for f in fs:
                 if f.is_leaf():
-                    out.append(f)
+                    out.append(F(f.col or f.name, f.rep, f.typ))      # the model knows columns by their column names
                 elif f.embedded:
                     out.extend(inline(f.typ))
                 else:
-                    out.append(F(f.name, f.rep, inline(f.typ)))
+                    out.append(F(f.col or f.name, f.rep, inline(f.typ)))
             return out
         return inline(self.fields)
 
@@ -101,7 +103,7 @@ class Shape:
                     lines.append("\t" + base)
                 else:
                     pre = {"req": "", "opt": "*", "rep": "[]"}[f.rep]
-                    lines.append("\t%s %s%s" % (f.name, pre, base))
+                    lines.append("\t%s %s%s%s" % (f.name, pre, base, ' `parquet:"%s"`' % f.col if f.col else ""))
             while ei < len(extras):
                 lines.append("\t" + extras[ei][1])
                 ei += 1
@@ -423,8 +425,21 @@ def replist():
                  desc="optional leaves of every kind inside a repeated group (several entries per record in an optional column)")
 
 
+TAGGED = os.environ.get("VERIF_TAGGED", "1") == "1"      # validated on the clean tree; VERIF_TAGGED=0 switches the tagged shapes off
+
+
+def tagged():
+    # (the sub-group comes first in its group: with it after the leaves - opt{req,opt,req{req,opt}} - the generated
+    #  assembly re-allocates the outer group and loses the leaves read before, one more shape of the open D9 finding)
+    return Shape("tagged", [F("ID", "req", "int64", col="id"),
+                            F("HomeAddress", "opt", [F("Geo", "req", [F("Lat", "req", "float64", col="lat"), F("Lon", "opt", "float64")], col="geo_point"),
+                                                     F("Street", "req", "string", col="street_name"), F("Zip", "opt", "int32", col="zip")], col="home_address"),
+                            F("Tags", "rep", "string", col="tag_list"), F("Score", "req", "float64")],
+                 desc="columns renamed by parquet tags (snake_case names, also for groups)")
+
+
 def portfolio():
-    return [flat24(), person(), document(), opt3(), boolopt(), reqnest(), embedded_root(), mixnest(), flatnum(), replist()]
+    return ([tagged()] if TAGGED else []) + [flat24(), person(), document(), opt3(), boolopt(), reqnest(), embedded_root(), mixnest(), flatnum(), replist()]
 
 
 def build_all():
